@@ -214,6 +214,8 @@ func runC10(r *an.Run) {
 	runC10alias(r)
 	unknownRecordsSurvive(r)
 	runC10d(r)
+	c10RecordSearch(r)
+	c10AddressAccounting(r)
 }
 
 var _ = ast.Inspect
